@@ -30,7 +30,7 @@ func segmentGlob(r *rand.Rand) string {
 	case 5:
 		return pick(r, []string{"[ab]", "[a-c]", "[^a]", "[!a]", "[abx]", "[b-z]"})
 	case 6:
-		return pick(r, []string{"[ab]b", "a[a-c]", "[^a]b", "[!x].o", "[xy].o", "[a-c]*", "*[bc]", "[ab]?", "a[!b]c"})
+		return pick(r, []string{"[ab]b", "a[a-c]", "[^a]b", "[!x].o", "[xy].o", "[a-c]*", "*[bc]", "[ab]?", "a[!b]c", "a[^x]b", "*[!x]b", "?[!a]?"})
 	default:
 		return pick(r, Names)
 	}
@@ -227,6 +227,74 @@ func DockerList(r *rand.Rand, names []string, max int) []string {
 			}
 		}
 		out = append(out, DockerPattern(r, names))
+	}
+	return out
+}
+
+// DockerListForTree generates a list whose patterns are mostly derived from
+// paths that exist in the tree (a prefix of an existing path, with segments
+// now and then replaced by wildcards), so that exclusion, re-inclusion and
+// traversal below excluded directories really occur.
+func DockerListForTree(r *rand.Rand, names []string, paths []string, max int) []string {
+	if len(paths) == 0 {
+		return DockerList(r, names, max)
+	}
+	derive := func() string {
+		segs := strings.Split(paths[r.Intn(len(paths))], "/")
+		segs = segs[:1+r.Intn(len(segs))]
+		out := make([]string, len(segs))
+		for i, sgm := range segs {
+			switch r.Intn(14) {
+			case 0:
+				out[i] = "*"
+			case 1:
+				out[i] = "**"
+			case 2:
+				if len([]rune(sgm)) == 1 {
+					out[i] = "?"
+				} else {
+					out[i] = string([]rune(sgm)[:1]) + "*"
+				}
+			default:
+				out[i] = sgm
+			}
+		}
+		return strings.Join(out, "/")
+	}
+	n := 1 + r.Intn(max)
+	out := make([]string, 0, n)
+	for i := 0; i < n; i++ {
+		var p string
+		switch {
+		case r.Intn(4) == 0:
+			p = DockerPattern(r, names)
+		case i > 0 && r.Intn(3) == 0:
+			// extend an earlier pattern by real or random components
+			base := strings.TrimSpace(out[r.Intn(len(out))])
+			base = strings.Trim(strings.TrimPrefix(base, "!"), "/")
+			p = base + "/" + pick(r, names)
+			if r.Intn(3) == 0 {
+				p += "/" + pick(r, names)
+			}
+			if r.Intn(4) != 0 {
+				p = "!" + p
+			}
+		default:
+			p = derive()
+			if r.Intn(5) < 2 {
+				p = "!" + p
+			}
+			if r.Intn(10) == 0 {
+				p = strings.Replace(p, "!", "!/", 1)
+				if !strings.HasPrefix(p, "!") {
+					p = "/" + p
+				}
+			}
+			if r.Intn(10) == 0 {
+				p += "/"
+			}
+		}
+		out = append(out, p)
 	}
 	return out
 }
